@@ -9,11 +9,11 @@ EXPLANATION = "inductive step of each sequence operation from an arbitrary valid
 def A(name, op, l, tiers, **kw):
     lm = 2 * l + 2
     us = ["Type_Scan.0:24", "Type_Scan.1:24", "strcmp.0:24", "owns.0:26", "owns.1:%d" % (lm + 2), "owns.2:%d" % (lm + 2), "elem_live_count.0:26",
-          "vcw_new.0:60", "vcw_realloc.0:60", "vcw_check.0:60", "vcw_check.1:6", "vcw_find.0:6", "vcw_live.0:6",
+          "vcw_new.0:60", "vcw_realloc.0:60", "vcw_check.0:60", "vcw_check.1:6", "vcw_find.0:6", "vcw_live.0:6", "Array_Sort_Part:5", "Array_Sort_Partition.0:6",
           "memcpy.0:8", "memset.0:8", "verif_memmove_w.0:%d" % (5 * (l + 1) + 2), "verif_memmove_w.1:%d" % (5 * (l + 1) + 2), "snapshot.0:%d" % (5 * lm + 2), "verif_on_throw.0:%d" % (5 * lm + 2)]
     two = name in ("concat", "assign")
     vcw = 5 * (2 * l + 3) if two or name in ("push", "push_at", "resize", "init") else 5 * (l + 2)
-    return Ob("array.%s.l%d" % (name, l), "C04/array_step.c", defs=["L=%d" % l, "OP=%s" % op, "VCW=%d" % vcw, "VCW_BLOCKS=%d" % (2 if two or name == "init" else 1)], replace=["Array.c"], srcs_extra=["env_vcapw.c"],
+    return Ob("array.%s.l%d" % (name, l), "C04/array_step.c", defs=["L=%d" % l, "OP=%s" % op, "VCW=%d" % vcw, "VCW_BLOCKS=%d" % (3 if two or name == "init" else 1)], replace=["Array.c"], srcs_extra=["env_vcapw.c"],
               unwind=lm + 2, unwindset=us, checks=["bounds", "pointer", "div0"], tiers=tiers, desc="Array %s step from an arbitrary valid state, length <= %d" % (name, l), **kw)
 P = ("quick", "thorough")
 OPS = [("init", "OP_INIT"), ("push", "OP_PUSH"), ("pop", "OP_POP"), ("push_at", "OP_PUSH_AT"), ("pop_at", "OP_POP_AT"), ("getset", "OP_GETSET"), ("rem", "OP_REM"),
